@@ -1446,6 +1446,27 @@ function bint.ipow(x, y)
   return x * z
 end
 
+-- (a + b) mod m for unsigned a, b < m; no intermediate value exceeds m, so nothing wraps
+local function uaddmod(a, b, m)
+  local mb = m - b
+  if a:ult(mb) then
+    return a + b
+  end
+  return a - mb
+end
+
+-- (a * b) mod m for unsigned a, b < m by double-and-add over the bits of b
+local function umulmod(a, b, m)
+  local r = bint_zero()
+  for i=BINT_BITS-1,0,-1 do
+    r = uaddmod(r, r, m)
+    if (b[(i // BINT_WORDBITS) + 1] >> (i % BINT_WORDBITS)) & 1 == 1 then
+      r = uaddmod(r, a, m)
+    end
+  end
+  return r
+end
+
 --- Perform integer power between two unsigned integers over a modulus considering bints.
 -- @param x The base, an integer.
 -- @param y The exponent, an integer.
@@ -1464,10 +1485,10 @@ function bint.upowmod(x, y, m)
   x = bint_umod(x, m)
   while not y:iszero() do
     if y:isodd() then
-      z = bint_umod(z*x, m)
+      z = umulmod(z, x, m) -- z*x would wrap at the bit width for m > 2^(bits/2)
     end
     y:_shrone()
-    x = bint_umod(x*x, m)
+    x = umulmod(x, x, m)
   end
   return z
 end
